@@ -34,7 +34,8 @@ DeleteResp(m, k) == IF k \in DOMAIN m THEN [m |-> KDel(m, k), res |-> "ok", chan
 
 ---------------------------------------------------------------------------
 (* design-level specification and behaviour generator                      *)
-CONSTANTS NKeys, Vals, Wt, Depth, GenMode
+CONSTANTS NKeys, Vals, Wt, Depth, GenMode,
+          ReW      \* weights a key's unchanged value can be re-written with ({} = never)
 VARIABLES kv,      \* live content
           dur,     \* content of the last durable commit
           ck,      \* checkpoint content (SaveRoot)
@@ -59,6 +60,11 @@ Update(k, v) == /\ kv' = KPut(kv, k, v, Wt[v]) /\ st' = [st EXCEPT !.clean = FAL
                 /\ Log(Rec("update", k, v, 0)) /\ UNCHANGED <<dur, ck>>
 Delete(k)    == /\ kv' = DeleteResp(kv, k).m /\ st' = [st EXCEPT !.clean = FALSE]
                 /\ Log(Rec("delete", k, "", 0)) /\ UNCHANGED <<dur, ck>>
+\* the weight is an argument of an update, not a function of the value: the same value under another weight
+\* (history token "<value>^<w>")
+Reweigh(k, w) == /\ k \in DOMAIN kv /\ w # kv[k].w
+                 /\ kv' = KPut(kv, k, kv[k].v, w) /\ st' = [st EXCEPT !.clean = FALSE]
+                 /\ Log(Rec("update", k, kv[k].v \o "^" \o ToString(w), 0)) /\ UNCHANGED <<dur, ck>>
 \* Garbage collection is staged: nodes superseded by a commit are queued, the first DeleteNodes pass after it arms the
 \* queue, the second removes them from storage.  A checkpoint therefore survives one pass after the commit that
 \* superseded it and is gone after the second (gcs counts the effective passes since the last effective commit).
@@ -79,7 +85,7 @@ Rollback(how) == /\ st.clean /\ st.saved /\ st.commits = 1 /\ st.gcs <= 1
                  /\ Log(Rec(how, 0, "", 0)) /\ UNCHANGED ck
 
 Next ==
-  \/ \E k \in Keys : (\E v \in Vals : Update(k, v)) \/ Delete(k)
+  \/ \E k \in Keys : (\E v \in Vals : Update(k, v)) \/ Delete(k) \/ (\E w \in ReW : Reweigh(k, w))
   \/ \E lv \in {0, 1, 3} : Commit(lv)
   \/ GC \/ Reload \/ ReadRoot \/ Owners \/ SaveRoot \/ Rollback("rollback") \/ Rollback("rollbacktrie")
 
